@@ -79,3 +79,14 @@ add("C05",
     "every failure subset (<=3), every metric valuation for the rung systems listed in the evidence; oracle: rung filling, promotion only after rung completion, top-k membership, bracket cycling, never blocks",
     "symbolic execution of the real code (CrossHair engine + z3), reference-model oracle",
     "DESIGN.md 4 C05")
+add("C11",
+    "bounded model checking of non-interference: two equally seeded scheduler objects, interleaved call by call, with every global-RNG entry point replaced by a stub that returns fresh symbolic values; "
+    "any dependence of a suggestion/decision on a global draw is a satisfiable disequality. Families: FIFO random/grid/BO(pre-fit)/regularised evolution, Hyperband stopping/promotion (2 brackets), "
+    "synchronous Hyperband, DEHB, PBT (population 4), median rule; <=3-5 trials, <=8-10 events",
+    "symbolic execution of the real scheduler code (CrossHair engine + z3) as non-interference twins with symbolic global-RNG streams",
+    "DESIGN.md 4 C11")
+add("C15",
+    "bounded model checking of mirror twins: instance A (mode min, metrics v) and B (mode max, metrics -v) driven with one symbolic schedule and symbolic metrics; all suggestions and decisions must coincide. "
+    "Families: Hyperband stopping/promotion/RUSH (1-2 brackets), synchronous Hyperband, DEHB, PBT, median rule, regularised evolution, TuningStatus best trial; <=3-4 trials, <=8 events",
+    "symbolic execution of the real scheduler code (CrossHair engine + z3), paired execution in one path",
+    "DESIGN.md 4 C15")
